@@ -76,8 +76,15 @@ class PickleSafeException(Exception):
 
     @classmethod
     def from_exc(cls, orig_exc: Exception, device_id: str) -> "PickleSafeException":
+        orig_exc_cls = orig_exc.__class__
+        try:
+            pickle.loads(pickle.dumps(orig_exc_cls))
+        except Exception:
+            # a class that cannot be imported by name (local or generated class) does not pickle; the queue
+            # feeder thread would drop the whole result
+            orig_exc_cls = Exception
         return PickleSafeException(
-            orig_exc.__class__,
+            orig_exc_cls,
             str(orig_exc),
             device_id,
             pickle_safe_traceback_formatter_connector.get()(orig_exc)
